@@ -231,7 +231,7 @@ func (s *stubStore) GetEthAccount(a ethcomm.Address) (*storage.EthAccount, error
 
 type flags map[string]bool
 
-var kindSet = []string{"wrap", "replaced", "expired", "truncated", "filtered-dup", "filtered-nonce"}
+var kindSet = []string{"wrap", "staled", "replaced", "expired", "truncated", "filtered-dup", "filtered-nonce"}
 
 func exec(line string) hx.Result {
 	f := strings.Fields(line)
@@ -503,6 +503,46 @@ func exec(line string) hx.Result {
 		case p[0] == "v" && len(p) == 1:
 			val.Clean()
 			o = "-"
+		case p[0] == "x" && len(p) == 2:
+			h, err := strconv.ParseUint(p[1], 10, 32)
+			if err != nil {
+				return hx.Result{Out: "bad-op"}
+			}
+			n0 := pool.GetTransactionCount()
+			pool.CleanStaledEIPTx(uint32(h))
+			o = "-"
+			if pool.GetTransactionCount() < n0 {
+				fl["staled"] = true
+			}
+		case p[0] == "q" && len(p) == 2:
+			a, err := strconv.Atoi(p[1])
+			if err != nil || a >= len(payers) {
+				return hx.Result{Out: "bad-op"}
+			}
+			o = strconv.FormatUint(pool.NextNonce(payers[a]), 10)
+		case p[0] == "f" && len(p) == 3:
+			n, e1 := strconv.Atoi(p[1])
+			base, e2 := strconv.ParseUint(p[2], 10, 64)
+			if e1 != nil || e2 != nil || n > 20000 {
+				return hx.Result{Out: "bad-op"}
+			}
+			okc := 0
+			for i := 0; i < n; i++ {
+				m := &types.MutableTransaction{TxType: types.InvokeNeo, GasPrice: base + uint64(i), GasLimit: 20000, Payer: payers[0],
+					Payload: &payload.InvokeCode{Code: []byte(fmt.Sprintf("o0.0.%d.0", base+uint64(i)))}}
+				tx, err := m.IntoImmutable()
+				if err != nil {
+					panic(err)
+				}
+				tokOf[tx.Hash()] = fmt.Sprintf("o0.0.%d.0", base+uint64(i))
+				ch := make(chan *vt.CheckResponse, 1)
+				statefulV.SubmitVerifyTask(tx, ch)
+				rsp := <-ch
+				if rsp.ErrCode == errors.ErrNoError && pool.AddTxList(&tc.VerifiedTx{Tx: tx, VerifiedHeight: rsp.Height, Nonce: rsp.Nonce}) == errors.ErrNoError {
+					okc++
+				}
+			}
+			o = fmt.Sprintf("ok%d", okc)
 		case p[0] == "y" && len(p) == 3:
 			tx := getTx(p[1])
 			start, err := strconv.ParseUint(p[2], 10, 32)
@@ -536,7 +576,18 @@ func exec(line string) hx.Result {
 		outs = append(outs, o)
 	}
 	a, b := val.BlockRange()
-	res.Out = strings.Join(outs, "|") + " # pool=" + sortedTokens(pool.GetTransactionHashList()) + fmt.Sprintf(" range=[%d,%d)", a, b)
+	hl := pool.GetTransactionHashList()
+	poolS := sortedTokens(hl)
+	if len(hl) > 300 { // after a fill: count + the EIP-155 transactions only
+		var eh []common.Uint256
+		for _, h := range hl {
+			if strings.HasPrefix(tokOf[h], "e") {
+				eh = append(eh, h)
+			}
+		}
+		poolS = fmt.Sprintf("#%d:%s", len(hl), sortedTokens(eh))
+	}
+	res.Out = strings.Join(outs, "|") + " # pool=" + poolS + fmt.Sprintf(" range=[%d,%d)", a, b)
 	// histogram bucket: the combination of the branches that matter for the property (other flags are near-universal)
 	fl["wrap"] = fl["nonce-wrap"] || fl["rawprice-replace"]
 	var ks []string
